@@ -5,11 +5,13 @@
 # (Run after every engine or contract change; it does not touch /repo itself.)
 cd /verif
 export GOFLAGS=-mod=mod GOPROXY=off GOSUMDB=off GOTOOLCHAIN=local
-wt=/tmp/selftest_wt
+# SHARD=i NSHARD=n runs every n-th change only (tools/selftest_par.sh starts n of these).
+SHARD=${SHARD:-0}; NSHARD=${NSHARD:-1}
+wt=/tmp/selftest_wt$SHARD; out=/verif/work/selftest$SHARD
 git -C /repo worktree remove --force $wt >/dev/null 2>&1; rm -rf $wt
 git -C /repo worktree add -q --detach $wt HEAD || exit 2
-trap 'git -C /repo worktree remove --force $wt >/dev/null 2>&1; rm -rf $wt /verif/work/selftest' EXIT
-fail=0; n=0
+trap 'git -C /repo worktree remove --force $wt >/dev/null 2>&1; rm -rf $wt $out' EXIT
+fail=0; n=0; k=-1
 for d in /verif/seeded/*/; do
   name=$(basename $d)
   [ -n "$1" ] && ! echo "$name" | grep -q "$1" && continue
@@ -18,13 +20,14 @@ import json
 m=json.load(open('$d/meta.json'))
 print(' '.join(sorted(set(c.split(':')[0] for c in m.get('caught_by',[])))))")
   [ -z "$props" ] && continue
+  k=$((k+1)); [ $((k % NSHARD)) -ne $SHARD ] && continue
   if ! git -C $wt apply $d/patch.diff 2>/dev/null && ! git -C $wt apply -3 $d/patch.diff 2>/dev/null; then
     echo "$name: patch no longer applies to /repo HEAD (skipped)"; git -C $wt reset -q --hard; continue
   fi
   n=$((n+1))
   caught=no
   for p in $props; do
-    if GOVC_REPO=$wt GOVC_OUT=/verif/work/selftest bin/govc check $p 2>&1 | grep -q "^VIOLATION property=$p"; then caught=yes; break; fi
+    if GOVC_REPO=$wt GOVC_OUT=$out bin/govc check $p 2>&1 | grep -q "^VIOLATION property=$p"; then caught=yes; break; fi
   done
   git -C $wt reset -q --hard; git -C $wt clean -fdq
   echo "$name: caught=$caught (checks tried: $props)"
